@@ -6,3 +6,8 @@ P = "C15"
 META = dict(S.META)
 for name, (harness, fns, replay) in S.UNITS.items():
     register(Unit(P, name, harness, functions=fns, replay=replay))
+
+from contracts import commitpath as cp
+register(Unit(P, "CARRY/create_manifest_file-entries", cp.h_manifest_entries, functions=[f"{cp.FMOD}:FileManager.create_manifest_file"], replay=S._replay_carry))
+register(Unit(P, "CARRY/read_manifest_file-entries", cp.h_manifest_read_entries, functions=[f"{cp.FMOD}:FileManager.read_manifest_file"], replay=S._replay_carry))
+register(Unit(P, "DELETE-EXACT/_commit_file_ops", cp.h_commit_file_ops("both"), functions=[f"{cp.TX}:Transaction._commit_file_ops"], replay=S._replay_carry))
